@@ -63,7 +63,7 @@ def call_backend(backend, order, x, y, starts, L, w, omega, chunk=None):
 def kernel_case(draw, maxN, maxK):
     order = draw(st.sampled_from([-1, 0, 1, 2]))
     N = draw(st.one_of(st.integers(1, 48), st.integers(8, maxN), st.integers(8, maxN)))
-    L = draw(st.one_of(st.sampled_from([1, 2, 3, order + 1, order + 2, N]), st.integers(min(2, N), N),
+    L = draw(st.one_of(st.sampled_from([1, 2, 3, order + 1, order + 2, N]), st.sampled_from([64, 128, 256, 384, 512, 1024]), st.integers(min(2, N), N),
                        st.integers(min(4, N), N), st.integers(min(4, N), N)))
     L = min(max(1, L), N)
     mode = draw(st.sampled_from(["auto", "csd", "csd"]))
